@@ -154,25 +154,33 @@ func runC03(w *World, r *Report) {
 		if f == nil {
 			continue
 		}
-		for _, g := range f.calls(nSaveTrx) {
+		for _, d := range deepCalls(f.fn, func(c ssa.CallInstruction) bool { return calleeName(c) == nSaveTrx }, deepDepth) {
+			g := d.c
 			_, ga := callArgs(g)
-			hp := pathOf(ga[0])
-			isRemove := func(in ssa.Instruction) bool {
+			hp := d.path(ga[0])
+			isRemove := func(in ssa.Instruction, fr *frame) bool {
 				c, ok := in.(ssa.CallInstruction)
 				if !ok || calleeName(c) != nRemoveTrx {
 					return false
 				}
 				_, a := callArgs(c)
-				return pathOf(a[0]) == hp
+				return fr.cx.res(a[0]) == hp
 			}
-			// start on the success edges
+			// start on the success edges; helpers are followed, so a helper that cleans up before it reports a
+			// failure counts, and its successful return does not
+			type rmSite struct {
+				in ssa.Instruction
+				fr *frame
+			}
+			var removals []rmSite
 			var badErr, nSucc int
 			for _, e := range passErrNil(g) {
-				walkFrom(nil, e.To(), nil, func(in ssa.Instruction) bool {
-					if isRemove(in) {
+				dw := newDeepWalk(func(in ssa.Instruction, fr *frame) bool {
+					if isRemove(in, fr) {
+						removals = append(removals, rmSite{in, fr})
 						return true
 					}
-					if ret, ok := in.(*ssa.Return); ok {
+					if ret, ok := in.(*ssa.Return); ok && fr.top() {
 						if successReturn(ret) {
 							nSucc++
 						} else {
@@ -182,17 +190,15 @@ func runC03(w *World, r *Report) {
 					}
 					return false
 				})
+				dw.run(frameFor(f.fn, d.chain), e.To(), 0)
 			}
 			r.check(badErr == 0 && nSucc > 0, "rollback-reservation", spec+"/error-paths("+hp+")", lineOf(w, g),
 				"every error return after the reservation passes removeTrxInVertex("+hp+")", fmt.Sprintf("%d error returns reachable without the removal; %d success returns", badErr, nSucc))
 			// success returns must not be reachable from a removal
 			bad := 0
-			instrsOf(f.fn, func(in ssa.Instruction) {
-				if !isRemove(in) {
-					return
-				}
-				walkFrom(in, nil, nil, func(x ssa.Instruction) bool {
-					if ret, ok := x.(*ssa.Return); ok {
+			for _, rm := range removals {
+				dw := newDeepWalk(func(x ssa.Instruction, fr *frame) bool {
+					if ret, ok := x.(*ssa.Return); ok && fr.top() {
 						if successReturn(ret) {
 							bad++
 						}
@@ -200,7 +206,8 @@ func runC03(w *World, r *Report) {
 					}
 					return false
 				})
-			})
+				dw.run(rm.fr, rm.in.Block(), indexIn(rm.in.Block(), rm.in)+1)
+			}
 			r.check(bad == 0, "rollback-reservation", spec+"/success-paths("+hp+")", lineOf(w, g), "no success return after the index entry was removed", fmt.Sprintf("%d success returns reachable after removeTrxInVertex", bad))
 		}
 	}
@@ -226,7 +233,7 @@ func runC03(w *World, r *Report) {
 					return false
 				}
 				_, ra := callArgs(c)
-				return trxHashPathOK(fn, v, pathOf(ra[0]))
+				return trxHashPathOKUp(w, fn, v, pathOf(ra[0]), 2)
 			})
 			r.check(len(exits) == 0, "delete-with-index", key+"("+v+")", lineOf(w, d), "index entry of the deleted vertex is removed on every path", fmt.Sprintf("%d exits reachable without removeTrxInVertex(%s.Transaction.Hash)", len(exits), v))
 		}
@@ -258,28 +265,42 @@ func runC03(w *World, r *Report) {
 	// 5. gossip path looks in both stores
 	r.rule("gossip-exists-checks", "addLeafMemorized inserts only behind the not-exists edges of checkVertexExists(v.Hash) (live DAG and storage) and checkTrxInVertexExists(v.Transaction.Hash)", 3)
 	if f := w.fx(r, "accountant", "AccountingBook", "addLeafMemorized"); f != nil {
-		for _, s := range f.calls(nAddVertexByID) {
-			_, args := callArgs(s)
-			v := pathOf(args[1])
+		sites := deepCalls(f.fn, func(c ssa.CallInstruction) bool { return calleeName(c) == nAddVertexByID }, deepDepth)
+		if len(sites) == 0 {
+			r.bad("gossip-exists-checks", "addLeafMemorized/AddVertexByID", w.Pos(f.fn.Pos()), "the gossip admission path inserts into the DAG", "no insertion found")
+		}
+		for _, d := range sites {
+			_, args := callArgs(d.c)
+			v := d.path(args[1])
 			for _, chk := range []struct{ callee, suffix string }{
 				{cn("accountant", "*AccountingBook", "checkVertexExists"), ".Hash"},
 				{cn("accountant", "*AccountingBook", "checkTrxInVertexExists"), ".Transaction.Hash"},
 			} {
-				ok := false
-				why := "no such call"
-				for _, c := range f.calls(chk.callee) {
-					_, ca := callArgs(c)
-					if pathOf(ca[0]) != v+chk.suffix {
-						why = "checked " + pathOf(ca[0]) + " instead of " + v + chk.suffix
-						continue
-					}
-					if behind(s, passBool(c, 0, false)) && behind(s, passErrNil(c)) {
-						ok = true
-					} else {
-						why = "insertion not behind the not-exists and no-error edges"
+				n, wrong := 0, ""
+				guard := func(pass func(ssa.CallInstruction) []Edge) gspec {
+					return func(fn *ssa.Function, res resolver) []Edge {
+						var es []Edge
+						for _, c := range callsTo(fn, chk.callee) {
+							_, ca := callArgs(c)
+							n++
+							if res(ca[0]) != v+chk.suffix {
+								wrong = res(ca[0])
+								continue
+							}
+							es = append(es, pass(c)...)
+						}
+						return es
 					}
 				}
-				r.check(ok, "gossip-exists-checks", "addLeafMemorized/"+chk.callee[strings.LastIndex(chk.callee, ".")+1:], lineOf(w, s), "duplicate check dominates the insertion", why)
+				ok := behindDeepSite(d, guard(func(c ssa.CallInstruction) []Edge { return passBool(c, 0, false) })) &&
+					behindDeepSite(d, guard(passErrNil))
+				why := "insertion not behind the not-exists and no-error edges"
+				if n == 0 {
+					why = "no such call"
+				} else if wrong != "" && !ok {
+					why = "checked " + wrong + " instead of " + v + chk.suffix
+				}
+				r.check(ok, "gossip-exists-checks", "addLeafMemorized/"+chk.callee[strings.LastIndex(chk.callee, ".")+1:], lineOf(w, d.c), "duplicate check dominates the insertion", why)
 			}
 		}
 		if ce := w.Func("accountant", "AccountingBook", "checkVertexExists"); ce != nil {
